@@ -148,7 +148,7 @@ def hdr_rec(h, f2t):
 @contextlib.contextmanager
 def scratch():
     old = tempfile.tempdir
-    root = pathlib.Path(tempfile.mkdtemp(prefix="eko-verif-run-"))
+    root = pathlib.Path(tempfile.mkdtemp(prefix="verif-eko-run-"))
     (root / "tmp").mkdir()
     tempfile.tempdir = str(root / "tmp")
     try:
